@@ -297,6 +297,11 @@ func (f *Forwarder) ServeDNS(ctx context.Context, ch *middleware.Chain) {
 		}
 
 		resp.Id = req.Id
+		// The upstream's question was accepted because it matches the one
+		// asked up to letter case; the client is owed its own spelling back.
+		if len(resp.Question) > 0 {
+			resp.Question[0].Name = req.Question[0].Name
+		}
 		resp.CheckingDisabled = clientCD
 		responseType, _ := dnsutil.ClassifyResponse(resp, time.Now())
 		if responseType == dnsutil.TypeServerFailure {
